@@ -49,12 +49,12 @@ Section Skel.
   Definition sk_index (sc : sscores T) (i : nat) : res T :=
     let drows := length (sc_mat sc) in
     if drows =? 0 then Panic 20
-    else let col := ix_col i drows in sk_cell sc (ix_row i drows col) col.
+    else sk_cell sc (ix_row i drows) (ix_col i drows).
 
   Definition sk_iter_get (sc : sscores T) (i : nat) : res T :=
     let drows := length (sc_mat sc) in
     if drows =? 0 then Panic 20
-    else let col := ig_col i drows in sk_cell sc (ig_row i drows col) col.
+    else sk_cell sc (ig_row i drows) (ig_col i drows).
 
   Definition sk_iter_lo (sc : sscores T) : nat := it_lo (sc_max sc) (length (sc_mat sc)) C.
   Definition sk_iter_end (sc : sscores T) : nat :=
